@@ -35,7 +35,7 @@ deriving DecidableEq, Repr
 inductive CallKind | abort | pause | remove
 deriving DecidableEq, Repr
 
-inductive Outcome | ok | fail | toQueue | transferring | complete
+inductive Outcome | ok | fail | toQueue | transferring | complete | incomplete
 deriving DecidableEq, Repr
 
 structure Task where
@@ -134,6 +134,7 @@ inductive Op
   | call (k : Nat) (c : CallKind)
   | callResume (k : Nat)
   | requeue (k : Nat)                     -- TransferManager.queue from ABORTED / PAUSED / COMPLETE / INCOMPLETE / FAILED
+  | peerFail (k : Nat)                    -- PeerTransferQueueFailed for download k: `state.fail(reason)` (manager.py, _on_peer_transfer_queue_failed)
 deriving Repr
 
 def bump (x : XT) : XT := { x with acts := x.acts + 1 }
@@ -144,9 +145,12 @@ def step (s : TS) : Op → TS
   | .cycle ks => ks.foldl TS.trySpawn s
   | .peerRequest k =>
     let x := s.xs k
-    if k < s.nx ∧ x.dir = .download ∧ x.removed = false ∧ x.locked = none ∧ (x.st = .queued ∨ x.st = .incomplete)
-        ∧ s.slotFree x.ttSlot = true then
-      s.spawn k .initDownload
+    if k < s.nx ∧ x.dir = .download ∧ x.removed = false ∧ x.locked = none ∧
+        (x.st = .queued ∨ x.st = .incomplete ∨ x.st = .failed) ∧ s.slotFree x.ttSlot = true then
+      -- FAILED: the peer re-queues it, `state.queue(remotely=True)` first (manager.py:1422-1423)
+      let s1 : TS := if x.st = .failed then
+          { s with xs := upd s.xs k { x with st := .queued, rq := true, quiet := false } } else s
+      s1.spawn k .initDownload
     else s
   | .taskStart t =>
     let tk := s.tasks t
@@ -179,12 +183,16 @@ def step (s : TS) : Op → TS
         | _, .transferring =>                                                               -- start_transferring, task goes on
           { s with xs := upd s.xs tk.xfer (bump (if x.st = .initializing then
               { x with st := (if x.dir = .upload then .uploading else .downloading), rq := false, attempts := 0 } else x)) }
-        | _, .toQueue =>
+        | _, .toQueue =>                                                                    -- `await transfer.state.queue()`
           { s with tasks := upd s.tasks t { tk with phase := .done },
-                   xs := upd s.xs tk.xfer (bump (if x.st = .initializing then { x with st := .queued, rq := false } else x)) }
+                   xs := upd s.xs tk.xfer (bump (if x.st = .queued ∨ x.st = .downloading ∨ x.st = .uploading then x
+                     else { x with st := .queued, rq := false })) }
         | _, .complete =>
           { s with tasks := upd s.tasks t { tk with phase := .done },
                    xs := upd s.xs tk.xfer (bump (if x.st = .uploading ∨ x.st = .downloading then { x with st := .complete } else x)) }
+        | _, .incomplete =>                                                                 -- file connection broke: `state.incomplete()`
+          { s with tasks := upd s.tasks t { tk with phase := .done },
+                   xs := upd s.xs tk.xfer (bump (if x.st = .downloading then { x with st := .incomplete } else x)) }
         | _, _ =>
           { s with tasks := upd s.tasks t { tk with phase := .done },
                    xs := upd s.xs tk.xfer (bump (if x.st = .initializing ∨ x.st = .uploading ∨ x.st = .downloading
@@ -224,12 +232,20 @@ def step (s : TS) : Op → TS
         (x.st = .aborted ∨ x.st = .paused ∨ x.st = .complete ∨ x.st = .incomplete ∨ x.st = .failed) then
       { s with xs := upd s.xs k { x with st := .queued, rq := false, quiet := false } }
     else s
+  | .peerFail k =>
+    -- the peer refuses the queue request: `fail` is defined on QUEUED / INITIALIZING / DOWNLOADING / INCOMPLETE / PAUSED
+    -- (state.py); it does NOT cancel the tasks of the transfer
+    let x := s.xs k
+    if k < s.nx ∧ x.dir = .download ∧ x.removed = false ∧ x.locked = none ∧
+        (x.st = .queued ∨ x.st = .initializing ∨ x.st = .downloading ∨ x.st = .incomplete ∨ x.st = .paused) then
+      { s with xs := upd s.xs k { x with st := .failed } }
+    else s
 
 def run (ops : List Op) : TS := ops.foldl step {}
 
 /-- the op is a user / peer action on transfer `k` -/
 def Op.addresses : Op → Nat → Bool
-  | .peerRequest j, k | .call j _, k | .callResume j, k | .requeue j, k => j == k
+  | .peerRequest j, k | .call j _, k | .callResume j, k | .requeue j, k | .peerFail j, k => j == k
   | _, _ => false
 
 end AioslskVerif.Tasks
